@@ -18,6 +18,14 @@ LEVEL = {
          "distinct positions per property at 0% (duplicates at 0% are left open by the property)", TECH % (" and Apalache", "")),
  "C11": ("model_checking", "6 C11", "The builder state machine adds keyframes in every order; OrderFree invariant; the as-found defect (boundary times before the sort) is a negative control that TLC must refute; every behaviour with non-ascending insertion order is replayed.",
          "<=3 keyframes exhaustive, <=6 pseudo-random", TECH % ("", "")),
+ "C04": ("model_checking", "6 C04", "NoJump is an action property model-checked over all histories to the stated depth on 5 configurations (the as-found stale-pause defect is a negative control TLC must refute); every history is replayed on a real animator and current_values is compared bit for bit immediately before and after every set_state.",
+         "tick >= 1/8 s; configuration pool of MC_Animator.tla; distinct keyframe positions per property", TECH % ("", "")),
+ "C05": ("model_checking", "6 C05", "Consistent + PauseRules model-checked over all histories; replay compares after every operation current_state, current_values against exact terms, and through the cfg(mina_verif) hook the internal clock and pause record.",
+         "as C04", TECH % ("", "")),
+ "C06": ("model_checking", "6 C06", "In the model values are a function of (state, override, total ticks) (Consistent), so any partition gives the same result; in the replay a twin animator receives each advance split into 0 + a + b + 0 and must stay bit-identical (values, is_ended, clock, pause record), including after a 2^24-tick advance followed by single-tick frames.",
+         "exactly representable steps (tick >= 1/8 s); pure float-rounding drift for non-representable steps is not decided", TECH % ("", "")),
+ "C07": ("model_checking", "6 C07", "EndedIff / EndedStable / TerminalWhenEnded / NeverEndedIfInfinite model-checked over all histories incl. advances landing exactly on the total duration; AfterTotalConstant unbounded in Apalache; is_ended compared after every replayed operation.",
+         "as C04; total durations on the exact tick grid", TECH % (" and Apalache", "")),
 }
 NA = {}
 for i in range(1, 21):
